@@ -89,33 +89,58 @@ def indexFrom (pat : S) : (rest : S) → (pos : Nat) → Option Nat
 def indexOf (s pat : S) (pos : Nat) : Option Nat :=
   if pos > s.length then none else indexFrom pat (s.drop pos) pos
 
-/-- String.prototype.replace with a string pattern and a `$`-free replacement -/
+/-- GetSubstitution (ECMA-262 §22.1.3.19.1) for a STRING pattern: no captures (m = 0) and namedCaptures undefined, so
+`$$` → `$`, `$&` → matched, `` $` `` → the text before the match, `$'` → the text after it; `$n`, `$nn`, `$<` and any
+other `$x` stay literal.  `pos` = position of the match, `matched` = the matched substring. -/
+def getSubst (s : S) (pos : Nat) (matched : S) : S → S
+  | [] => []
+  | [c] => [c]
+  | c :: ch :: rest =>
+    if c.toNat = 36 then
+      if ch.toNat = 36 then (36 : UInt16) :: getSubst s pos matched rest
+      else if ch.toNat = 96 then s.take pos ++ getSubst s pos matched rest
+      else if ch.toNat = 39 then s.drop (pos + matched.length) ++ getSubst s pos matched rest
+      else if ch.toNat = 38 then matched ++ getSubst s pos matched rest
+      else c :: ch :: getSubst s pos matched rest
+    else c :: getSubst s pos matched (ch :: rest)
+
+/-- build the result from the list of match positions (ECMA-262 §22.1.3.20 steps 14-16; replace = one position) -/
+def replaceWithGo (s : S) (plen : Nat) (r : S) : List Nat → Nat → S → S
+  | [], last, acc => acc ++ slice s last s.length
+  | p :: ps, last, acc =>
+    replaceWithGo s plen r ps (p + plen) (acc ++ slice s last p ++ getSubst s p (slice s p (p + plen)) r)
+
+def replaceWith (s : S) (plen : Nat) (positions : List Nat) (r : S) : S := replaceWithGo s plen r positions 0 []
+
+/-- String.prototype.replace with a string pattern -/
 def replaceFirst (s pat r : S) : S :=
   match indexOf s pat 0 with
   | none => s
-  | some p => s.take p ++ r ++ s.drop (p + pat.length)
+  | some p => replaceWith s pat.length [p] r
 
-/-- String.prototype.replaceAll (advanceBy = max(1, searchLength)) -/
-def replaceAllGo (s pat r : S) : Nat → Nat → Nat → S → S
-  | 0, _, endLast, acc => acc ++ s.drop endLast
-  | fuel + 1, pos, endLast, acc =>
+/-- matchPositions of String.prototype.replaceAll (advanceBy = max(1, searchLength)) -/
+def matchPositions (s pat : S) : Nat → Nat → List Nat
+  | 0, _ => []
+  | fuel + 1, pos =>
     match indexOf s pat pos with
-    | none => acc ++ s.drop endLast
-    | some p => replaceAllGo s pat r fuel (p + max 1 pat.length) (p + pat.length) (acc ++ slice s endLast p ++ r)
+    | none => []
+    | some p => p :: matchPositions s pat fuel (p + max 1 pat.length)
 
-def replaceAll (s pat r : S) : S := replaceAllGo s pat r (s.length + 2) 0 0 []
+/-- String.prototype.replaceAll with a string pattern -/
+def replaceAll (s pat r : S) : S := replaceWith s pat.length (matchPositions s pat (s.length + 2) 0) r
 
-/-- String.prototype.split(sep) with a string separator, no limit -/
-def splitGo (s sep : S) : Nat → Nat → List S → List S
-  | 0, q, acc => acc ++ [s.drop q]
-  | fuel + 1, q, acc =>
-    match indexOf s sep q with
-    | none => acc ++ [s.drop q]
-    | some p => splitGo s sep fuel (p + sep.length) (acc ++ [slice s q p])
+/-- String.prototype.split(sep) with a non-empty string separator, no limit: cut at each successive occurrence
+(the search resumes right after the separator); the last piece is the remainder. -/
+def splitRel (sep : S) : Nat → S → List S
+  | 0, rest => [rest]
+  | fuel + 1, rest =>
+    match indexFrom sep rest 0 with
+    | none => [rest]
+    | some idx => rest.take idx :: splitRel sep fuel (rest.drop (idx + sep.length))
 
 def split (s sep : S) : List S :=
   if sep.isEmpty then s.map (fun c => [c])
-  else splitGo s sep (s.length + 2) 0 []
+  else splitRel sep (s.length + 1) s
 
 def join (ps : List S) (j : S) : S :=
   match ps with
